@@ -4,6 +4,7 @@ import (
 	"encoding/base64"
 	"encoding/json"
 	"fmt"
+	"github.com/pquerna/otp/totp"
 	"net/url"
 	"runtime"
 	"sort"
@@ -28,7 +29,7 @@ type c20Case struct {
 }
 
 var c20Steps = []string{"login-ok", "login-bad", "visit-full", "visit-none", "logout", "recover", "register", "otp-login", "remember", "otp-add", "login-ok",
-	"recover-bad", "confirm-bad", "login-unknown", "get-pages", "register-dup", "recover-unknown", "recover-refused", "odd-methods", "totp-qr", "sms-login"}
+	"recover-bad", "confirm-bad", "login-unknown", "get-pages", "register-dup", "recover-unknown", "recover-refused", "odd-methods", "totp-qr", "sms-login", "totp-login", "totp-login"}
 
 type c20Client struct {
 	w    *harness.World
@@ -67,7 +68,22 @@ func (c *c20Client) note(step string, r *harness.Resp) {
 		sort.Strings(keys)
 	}
 	uid := r.SessAfter["uid"]
-	c.out = append(c.out, fmt.Sprintf("%s: %d loc=%s json=%s%v uid=%s sess=[%s] cook=[%s] probe=%v panic=%v", step, r.Status, loc, status, keys, uid, sortedKeysOf(r.SessAfter), sortedKeysOf(r.CookAfter), r.Rec.ProbeRan, r.Panic != nil))
+	// what the page tells the user: the error texts of the rendered data
+	msg := ""
+	if d, ok := r.JSON["data"].(map[string]interface{}); ok {
+		if e, ok := d["error"]; ok {
+			msg += fmt.Sprint(e)
+		}
+		if es, ok := d["errors"].(map[string]interface{}); ok {
+			var fs []string
+			for f, v := range es {
+				fs = append(fs, fmt.Sprintf("%s=%v", f, v))
+			}
+			sort.Strings(fs)
+			msg += "|" + strings.Join(fs, ";")
+		}
+	}
+	c.out = append(c.out, fmt.Sprintf("%s: %d loc=%s json=%s%v msg=%q uid=%s sess=[%s] cook=[%s] probe=%v panic=%v", step, r.Status, loc, status, keys, msg, uid, sortedKeysOf(r.SessAfter), sortedKeysOf(r.CookAfter), r.Rec.ProbeRan, r.Panic != nil))
 }
 
 func (c *c20Client) do(step, method, path string, form map[string]string, query url.Values) *harness.Resp {
@@ -188,6 +204,22 @@ func (c *c20Client) run(script []string) {
 			c.out = append(c.out, fmt.Sprintf("%s.code: got=%v", name, code != ""))
 			c.do(name+".code", "POST", P("/2fa/sms/validate"), map[string]string{"code": code}, nil)
 			c.do(name+".out", "DELETE", P("/logout"), nil, nil)
+		case "totp-login":
+			// the client's fourth account has TOTP 2FA: password step, a wrong code, the current code, then the same code
+			// again on a second login (refused as used when replay protection is on) - refusals for different reasons
+			tp := fmt.Sprintf("totp%d@x.io", c.i)
+			sec := ""
+			if u := w.Store.Peek(tp); u != nil {
+				sec = u.TOTPSecretKey
+			}
+			c.do(name+".pw", "POST", P("/login"), map[string]string{"email": tp, "password": goodPWs[c.i%4]}, nil)
+			c.do(name+".wrong", "POST", P("/2fa/totp/validate"), map[string]string{"code": "000000"}, nil)
+			code, _ := totp.GenerateCode(sec, time.Now())
+			c.do(name+".code", "POST", P("/2fa/totp/validate"), map[string]string{"code": code}, nil)
+			c.do(name+".out", "DELETE", P("/logout"), nil, nil)
+			c.do(name+".pw2", "POST", P("/login"), map[string]string{"email": tp, "password": goodPWs[c.i%4]}, nil)
+			c.do(name+".replay", "POST", P("/2fa/totp/validate"), map[string]string{"code": code}, nil)
+			c.do(name+".out2", "DELETE", P("/logout"), nil, nil)
 		case "totp-qr":
 			// start a TOTP enrolment and fetch its QR image (a rendered PNG) a few times
 			c.do(name+".login", "POST", P("/login"), map[string]string{"email": c.pid, "password": c.pw}, nil)
@@ -366,6 +398,10 @@ func c20Gen(t *rapid.T) c20Case {
 	for i := 0; i < k; i++ {
 		c.Cfg.Accounts = append(c.Cfg.Accounts, harness.AccountSpec{PID: fmt.Sprintf("sms%d@x.io", i), Password: goodPWs[i%4], Phone: fmt.Sprintf("+1555010%d", i), Recovery: 1})
 	}
+	for i := 0; i < k; i++ {
+		c.Cfg.Accounts = append(c.Cfg.Accounts, harness.AccountSpec{PID: fmt.Sprintf("totp%d@x.io", i), Password: goodPWs[i%4], TOTP: true, Recovery: 1})
+	}
+	c.Cfg.OneTimeTOTP = chance(t, "onetimetotp", 60)
 	c.Procs = pick(t, "procs", 2, 4, 16)
 	c.Perturb = rapid.Uint64Range(0, 1<<20).Draw(t, "perturb")
 	return c
